@@ -1,7 +1,98 @@
-(* C07 — placeholder while the round-trip proofs are being written *)
-From KS Require Import lib.Base lib.Varint lib.Outcome lib.Kafka model.Decoders proofs.DecodersProofs.
+(* C07 — Segment files written by the broker decode identically everywhere.
+   Statements only; proofs in proofs/DecodersRoundtrip.v (varint lemmas in lib/Varint.v).
+   Spec side: lib/Kafka.v ([enc_batch]: what a conforming producer sends, checked against
+   franz-go's kmsg encoder by the correspondence run).  [batch_wf]: uncompressed, >= 1
+   record, ANY int64 timestamp delta (negative too), null/empty/any key and value, any
+   headers (null/empty values), fields within their wire ranges.
+   [crc] is universally quantified: nothing depends on what CRC-32C computes.
+   The SQL decoder is the one WITH fixes/C07-sql-timestamp-varlong.patch; the unpatched
+   one ([decode_sql_orig]) is refuted below. *)
+From KS Require Import lib.Base lib.Varint lib.Outcome lib.Kafka model.Decoders proofs.DecodersProofs proofs.DecodersRoundtrip.
 Open Scope Z_scope.
 
+(* The real writer (BuildSegment over NewRecordBatchFromBytes of each batch) succeeds and
+   both processors' decoders return exactly the records that were sent: offset = base +
+   offsetDelta, timestamp = firstTimestamp + timestampDelta, key, value, headers. *)
+Theorem C07_decoders_roundtrip : forall crc interval created bs, bs <> [] -> Forall batch_wf bs ->
+  exists a, build_segment crc interval (map rbatch_of_bytes (map (enc_batch crc) bs)) created = Some a /\
+    out (decode_iceberg (a_segment a)) = Ok (concat (map records_of bs)) /\
+    out (decode_sql (a_segment a)) = Ok (concat (map records_of bs)).
+Proof. exact c07_built. Qed.
+Print Assumptions C07_decoders_roundtrip.
+
+(* the same for any header/footer field values (segment layout only) *)
+Theorem C07_iceberg_roundtrip : forall crc bs base count created crcv last, Forall batch_wf bs ->
+  out (decode_iceberg (seg_header base count created ++ enc_batches crc bs ++ seg_footer crcv last))
+  = Ok (concat (map records_of bs)).
+Proof. exact c07_iceberg. Qed.
+Print Assumptions C07_iceberg_roundtrip.
+
+Theorem C07_sql_roundtrip : forall crc bs base count created crcv last, Forall batch_wf bs ->
+  out (decode_sql (seg_header base count created ++ enc_batches crc bs ++ seg_footer crcv last))
+  = Ok (concat (map records_of bs)).
+Proof. exact c07_sql. Qed.
+Print Assumptions C07_sql_roundtrip.
+
+(* segment layout: header (magic, version 1, base offset of the first batch), the batches
+   back to back, footer with crc(body), last offset and the end magic *)
+Theorem C07_segment_layout : forall crc interval raws created, raws <> [] -> Forall (fun r => r <> []) raws ->
+  exists a, build_segment crc interval (map rbatch_of_bytes raws) created = Some a /\
+    a_segment a = seg_header (a_base a) (a_count a) created ++ concat raws ++ seg_footer (crc (concat raws)) (a_last a) /\
+    a_base a = to_signed 64 (be_u (slice (hd [] raws) 0 8)).
+Proof. exact build_segment_shape. Qed.
+Print Assumptions C07_segment_layout.
+
+(* the restore scanner sees every record's (timestampDelta, offsetDelta) *)
+Theorem C07_pitr_scan_roundtrip : forall rs rest, Forall record_wf rs ->
+  out (pitr_scan_records (S (length (enc_records rs ++ rest))) (zlen rs) (enc_records rs ++ rest))
+  = Ok (map (fun r => (kr_ts_delta r, kr_off_delta r)) rs).
+Proof. exact c07_scan. Qed.
+Print Assumptions C07_pitr_scan_roundtrip.
+
+(* the skeleton processor's decoder is a documented placeholder: it returns no batches and
+   never fails (the decode-equality clause is not claimed for it, DESIGN 9.2) *)
 Theorem C07_skeleton_returns_nothing : forall seg, decode_skeleton seg = ret [].
 Proof. reflexivity. Qed.
 Print Assumptions C07_skeleton_returns_nothing.
+
+(* ---------- the unpatched SQL decoder violates the property ---------- *)
+Definition rec0 (ts od : Z) : krecord := mkKRec 0 ts od (Some [107]) (Some [118]) [].
+Definition batch30d : kbatch :=  (* two records 30 days apart *)
+  mkKBatch 0 0 0 1 1700000000000 1702592000000 (-1) (-1) (-1) [rec0 0 0; rec0 2592000000 1].
+Definition batch12d : kbatch :=  (* second record 2^30 ms (12.4 days) later *)
+  mkKBatch 0 0 0 1 1700000000000 1701073741824 (-1) (-1) (-1) [rec0 0 0; rec0 (2 ^ 30) 1].
+Definition crcz (_ : bytes) : Z := 0.
+Definition seg_of (b : kbatch) : bytes := seg_header 0 2 0 ++ enc_batches crcz [b] ++ seg_footer 0 1.
+
+Definition batch198d : kbatch :=  (* second record 2^34 ms later: six varint bytes *)
+  mkKBatch 0 0 0 1 1700000000000 1717179869184 (-1) (-1) (-1) [rec0 0 0; rec0 (2 ^ 34) 1].
+
+Theorem C07_sql_unpatched_refuted :
+  (exists rs, out (decode_sql_orig (seg_of batch30d)) = Ok rs /\ rs <> records_of batch30d /\
+              map d_ts rs = [1700000000000; 1700444516352]) /\
+  out (decode_sql_orig (seg_of batch198d)) = Err EVarint /\
+  (exists rs, out (decode_sql_orig (seg_of batch12d)) = Ok rs /\ rs <> records_of batch12d /\
+              map d_ts rs = [1700000000000; 1700000000000 - 2 ^ 30]).
+Proof.
+  split; [|split; [vm_compute; reflexivity|]].
+  - eexists. split; [vm_compute; reflexivity|]. split; [vm_compute; discriminate|vm_compute; reflexivity].
+  - eexists. split; [vm_compute; reflexivity|]. split; [vm_compute; discriminate|vm_compute; reflexivity].
+Qed.
+Print Assumptions C07_sql_unpatched_refuted.
+
+Example C07_nonvacuous :
+  batch_wf batch30d /\
+  out (decode_sql (seg_of batch30d)) = Ok (records_of batch30d) /\
+  map d_ts (records_of batch30d) = [1700000000000; 1702592000000] /\
+  (let b := mkKBatch 5 0 0 0 1700000000000 1700000000000 (-1) (-1) (-1)
+              [mkKRec 0 (-7) 0 None (Some []) [([104], None); ([], Some [1; 2])]] in
+   batch_wf b /\ out (decode_iceberg (seg_of b)) =
+     Ok [mkDRec 5 1699999999993 None (Some []) [([104], None); ([], Some [1; 2])]]).
+Proof.
+  split; [|split; [vm_compute; reflexivity|split; [vm_compute; reflexivity|]]].
+  - unfold batch_wf, batch30d, rec0, record_wf, header_wf, in_signed, is_byte, bytes_ok, obytes_ok, olen. cbn.
+    repeat split; try lia; try discriminate; repeat constructor; try lia; try discriminate.
+  - cbv zeta. split; [|vm_compute; reflexivity].
+    unfold batch_wf, record_wf, header_wf, in_signed, is_byte, bytes_ok, obytes_ok, olen. cbn.
+    repeat split; try lia; try discriminate; repeat constructor; try lia; try discriminate.
+Qed.
